@@ -180,14 +180,18 @@ func drawValue(t *rapid.T, depth int, big bool) V {
 	}
 }
 
+// dedupKeys keeps the first of any keys that are equal ignoring case: lookups in an XObject are case-insensitive,
+// and which of two case-variant keys wins is the subject of C08 (a listed finding there), not of the properties
+// that merely evaluate expressions.
 func dedupKeys(o []KV) []KV {
 	seen := map[string]bool{}
 	out := o[:0]
 	for _, kv := range o {
-		if seen[kv.Key] {
+		k := strings.ToLower(kv.Key)
+		if seen[k] {
 			continue
 		}
-		seen[kv.Key] = true
+		seen[k] = true
 		out = append(out, kv)
 	}
 	return out
@@ -336,6 +340,12 @@ func (v V) Describe() string {
 	return string(b)
 }
 
+// caseVariants enables duplicate and case-variant keys in generated JSON objects (set by the packages that want them).
+var caseVariants = false
+
+// AllowCaseVariantKeys switches duplicate/case-variant object keys on for the calling test binary.
+func AllowCaseVariantKeys() { caseVariants = true }
+
 // JSONDoc draws a JSON document as text.
 func JSONDoc(t *rapid.T, depth int, big bool) string {
 	var sb strings.Builder
@@ -377,11 +387,22 @@ func writeJSON(t *rapid.T, sb *strings.Builder, depth int, big bool) {
 	default:
 		n := rapid.IntRange(0, 3).Draw(t, "n")
 		sb.WriteByte('{')
+		used := map[string]bool{}
+		first := true
 		for i := 0; i < n; i++ {
-			if i > 0 {
+			key := rapid.SampledFrom([]string{"a", "b", "A", "foo", "Foo", "__default__", "0", "key with space", "é", "\\u0061", "", "a.b", "x"}).Draw(t, "key")
+			fold := strings.ToLower(key)
+			if fold == "\\u0061" {
+				fold = "a"
+			}
+			if !caseVariants && used[fold] {
+				continue // duplicate and case-variant keys are C08's and C13's business (see dedupKeys)
+			}
+			used[fold] = true
+			if !first {
 				sb.WriteByte(',')
 			}
-			key := rapid.SampledFrom([]string{"a", "b", "A", "foo", "Foo", "__default__", "0", "key with space", "é", "\\u0061", "", "a.b", "x"}).Draw(t, "key")
+			first = false
 			sb.WriteString(`"` + key + `":`)
 			if rapid.Bool().Draw(t, "ws") {
 				sb.WriteByte(' ')
